@@ -392,4 +392,26 @@ def fold(e, scheme):
     return None
 
 
-RULES = [r1_file_reader, r2_variants, r3_index_first, r4_fallthrough, r5_recursion, r6_url_dispatch]
+def r7_stateless_lookups(chk):
+    model = chk.model
+    from rules.C12 import writes_in, reachable_methods
+    chk.doc('C14.R7', 'looking a module up does not change the reader: the methods reachable from getData write no '
+                      'instance attribute (audited exception: FileReader loads its .index mapping once), so the answer '
+                      'for a name does not depend on earlier lookups')
+    audited = {('FileReader', '_mibIndex'): 'index mapping loaded once from <dir>/.index',
+               ('FileReader', '_indexLoaded'): 'flag of that one-time load'}
+    n = 0
+    for rel, cname in ((LOCAL, 'FileReader'), (ZIP, 'ZipReader'), ('pysmi/reader/callback.py', 'CallbackReader'),
+                       ('pysmi/reader/httpclient.py', 'HttpReader'), ('pysmi/reader/ftpclient.py', 'FtpReader')):
+        ci = model.cls(rel, cname)
+        for mname, (owner, fn) in sorted(reachable_methods(ci, 'getData').items()):
+            ws = writes_in(fn)
+            n += 1
+            bad = [(a, k, node) for a, k, node in ws if (cname, a) not in audited]
+            chk.ob('C14.R7', '%s.%s/no-instance-writes' % (cname, mname), not bad, where(owner.mod, fn),
+                   'lookup code writes self.%s (%s): a later lookup can be answered from what an earlier one left '
+                   'behind' % (bad[0][0], norm(bad[0][2])[:60]) if bad else '')
+    chk.floor('C14.R7', 8, 'methods reachable from the getData of five readers')
+
+
+RULES = [r1_file_reader, r2_variants, r3_index_first, r4_fallthrough, r5_recursion, r6_url_dispatch, r7_stateless_lookups]
